@@ -438,6 +438,16 @@ func transformStage(r *ev.Run) {
 		{"Scale(0.2)", func(o render3d.Object) render3d.Object { return render3d.Scale(o, 0.2) }, func(c c3) c3 { return c.Scale(0.2) }, func(c c3) c3 { return c.Scale(0.2) }, id, true},
 		mat("MatrixMultiply(general)", gen),
 		mat("MatrixMultiply(diag(1.5,0.5,-2))", dia),
+		// determinant +-1 without being orthogonal (volume-preserving squash, shear), and an orthogonal map given as a
+		// plain matrix (mirror): a shortcut keyed on the determinant must not mistake the first two for the third
+		mat("MatrixMultiply(diag(2,1,0.5))", &model3d.Matrix3{2, 0, 0, 0, 1, 0, 0, 0, 0.5}),
+		mat("MatrixMultiply(shear)", &model3d.Matrix3{1, 0, 0, 0.5, 1, 0, 0, -0.25, 1}),
+		func() xf {
+			m := &model3d.Matrix3{1, 0, 0, 0, 1, 0, 0, 0, -1}
+			x := mat("MatrixMultiply(mirror z)", m)
+			x.normals = true
+			return x
+		}(),
 	}
 	// every sequence of up to two (thorough: three) wrappers stacked directly on each other; the last one is outermost
 	maxLen := 2
